@@ -116,3 +116,32 @@ def run(ctx):
                                      dict(rows=rows, rows2=rows2, r=r, region=reg))
                     except Exception as ex:
                         ctx.fail('StabilizerState.entropy', 'implementation raised %r' % ex, dict(rows=rows2, r=r, region=reg))
+        # Clifford gates acting entirely inside or entirely outside a region leave its entropy unchanged
+        import circ_util as CU
+        for reg in [x for x in ent if 0 < len(x) < n][:4]:
+            comp = [i for i in range(n) if i not in reg]
+            side = list(reg) if rng.random() < 0.5 else comp
+            st3 = impl.state(rows, r)
+            gates_ = []
+            for _k in range(rng.randrange(1, 4)):
+                d_ = CU.rand_gate(rng, len(side), kinds=('gen', 'fmap', 'named', 'cnot'))
+                # relabel the gate's qubits into the chosen side
+                d_ = dict(d_, qubits=sorted(side[q] for q in d_['qubits']))
+                if 'order' in d_:
+                    d_['order'] = list(d_['qubits'])
+                if d_['kind'] == 'cnot':
+                    c_, t_ = side[d_['c']], side[d_['t']]
+                    lo_ = min(c_, t_)
+                    import props.c11 as c11
+                    d_.update(c=c_, t=t_, F=c11.cnot_rows(0 if c_ == lo_ else 1, 1 if c_ == lo_ else 0))
+                gates_.append(d_)
+                CU.impl_gate(impl, d_).forward(st3)
+            try:
+                e3 = int(st3.entropy(list(reg)))
+            except Exception as ex:
+                ctx.fail('StabilizerState.entropy', 'implementation raised %r' % ex, dict(rows=rows, r=r, region=reg)); continue
+            ctx.count('local-gates:' + ('inside' if side == list(reg) else 'outside'))
+            ctx.case(('local-gates', tuple(rows), r, reg, str(gates_)), True, sample=dict(op='entropy after local gates', N=n, r=r, region=reg, gates=len(gates_)))
+            if e3 != ent[reg]:
+                ctx.fail('StabilizerState.entropy', 'entropy of a region changed (%d -> %d) under gates acting entirely %s it' % (ent[reg], e3, 'inside' if side == list(reg) else 'outside'),
+                         dict(rows=rows, r=r, region=reg, gates=gates_))
